@@ -2,11 +2,16 @@
   C07 at document level — "every Turtle document is TriG": what the document-level development of
   C08 (`Props/C08Doc.lean`) adds to `Props/C07Ttl.lean`.
 
-  `C07.ttl_sub_trig` (Props/C07Ttl.lean, a `def`) quantifies over ALL inputs the Turtle run accepts,
-  grammatical or not; that statement needs a stuttering simulation between the two top-level scan
-  functions (Turtle re-scans the subject token, TriG produces it at once and decides in `E1`) and
-  is still NOT proved.  PROVED here, for the configuration the driver runs:
+  `C07.ttl_sub_trig_sim_partial` (Props/C07Ttl.lean) is the simulation for ALL inputs the Turtle run
+  accepts, grammatical or not, over abstract token producers with the hypothesis `KwSafe`.
+  PROVED here, for the configuration the driver runs:
 
+    * `ttl_sub_trig_real_partial` — the simulation for the REAL token producers and tables of both
+      packages (`C05.realCfg`), every resolver, base, prefix table, input and stream ending, and
+      every white-space predicate without PN_CHARS runes, `:` and `.` (`SpaceOK`);
+      `ttl_sub_trig_unicode_partial` instantiates it with Go's `unicode.IsSpace` minus U+1680 (the
+      regenerated table), i.e. the driver's configuration except for that one rune — the exception
+      is finding C07-graph-ogham (`C07.finding_graph_ogham`);
     * `gen_tables_eq` — the regenerated Turtle and TriG tables are the same `Tables` value, so the
       two packages are run with the same token producers and character classes;
     * `ttl_sub_trig_grammatical_partial` — for every well-formed Turtle document (any nesting, every
@@ -72,6 +77,61 @@ theorem ttl_sub_trig_grammatical_partial (resolve : Option (List Nat) → List N
   have := C06.ttl_default_graph resolve (inRanges Gen.unicodeSpace) .eof base pf (print Gen.turtle doc ch) q
   rw [h1] at this
   exact this hq
+
+/-! ### The simulation for the real producers -/
+
+/-- Go's `unicode.IsSpace` (regenerated) without U+1680 contains no name character, `:` or `.`. -/
+theorem spaceOK_unicode_minus_ogham :
+    SpaceOK Gen.turtle (fun c => inRanges Gen.unicodeSpace c && c != 0x1680) := by
+  intro c hc
+  simp only [Bool.and_eq_true, bne_iff_ne, ne_eq] at hc
+  obtain ⟨hsp, hne⟩ := hc
+  have hns := space_not_solid Gen.turtle Gen.unicodeSpace (by decide)
+  have hsolid : solid Gen.turtle c = false := by
+    cases h : solid Gen.turtle c with
+    | false => rfl
+    | true => have := hns c h; rw [hsp] at this; cases this
+  simp only [solid, Bool.or_eq_false_iff, Bool.and_eq_false_iff, bne_eq_false_iff_eq, Bool.not_eq_false'] at hsolid
+  obtain ⟨h1, h2⟩ := hsolid
+  refine ⟨?_, ?_, ?_⟩
+  · rintro rfl; rcases h2 with h2 | h2 <;> revert h2 <;> decide
+  · rintro rfl; rcases h2 with h2 | h2 <;> revert h2 <;> decide
+  · rcases h1 with h1 | h1
+    · exact h1
+    · exact absurd h1 hne
+
+/-- THE SIMULATION for the real producers and tables of the two packages: for every input, base,
+    prefix table, resolver and stream ending, what the Turtle decoder model accepts the TriG decoder
+    model accepts with the same statements, all in the default graph. `_partial`: the white-space
+    predicate must not contain a PN_CHARS rune (finding C07-graph-ogham: U+1680 in `unicode.IsSpace`). -/
+theorem ttl_sub_trig_real_partial (resolve : Option (List Nat) → List Nat → Option (List Nat)) (isSpace : Nat → Bool)
+    (hsp : SpaceOK Gen.turtle isSpace) (e : End) (base : Option (List Nat)) (pf : List (List Nat × List Nat))
+    (inp : List Nat) (ts : List Stmt)
+    (h : run (C05.realCfg false resolve isSpace) e base pf inp = (ts, .clean)) :
+    run (C05.realCfg true resolve isSpace) e base pf inp = (ts, .clean) ∧ sameTriples ts ts := by
+  obtain ⟨hP, hC, hL⟩ := C05.real_producers_ok Gen.turtle C05.gen_tables_nul.1
+  have e1 : C05.realCfg true resolve isSpace = { C05.realCfg false resolve isSpace with trig := true } := by
+    simp [C05.realCfg, ← gen_tables_eq]
+  obtain ⟨qs, h1, h2⟩ := ttl_sub_trig_sim_partial (C05.realCfg false resolve isSpace) e hP hC hL
+    (kwSafe_real false resolve isSpace hsp) base pf inp ts h
+  obtain ⟨rfl, h3⟩ := h2
+  rw [e1]
+  exact ⟨h1, rfl, h3⟩
+
+/-- … in particular for `unicode.IsSpace` minus U+1680. -/
+theorem ttl_sub_trig_unicode_partial (resolve : Option (List Nat) → List Nat → Option (List Nat)) (e : End)
+    (base : Option (List Nat)) (pf : List (List Nat × List Nat)) (inp : List Nat) (ts : List Stmt)
+    (h : run (C05.realCfg false resolve (fun c => inRanges Gen.unicodeSpace c && c != 0x1680)) e base pf inp = (ts, .clean)) :
+    run (C05.realCfg true resolve (fun c => inRanges Gen.unicodeSpace c && c != 0x1680)) e base pf inp = (ts, .clean) ∧
+      sameTriples ts ts :=
+  ttl_sub_trig_real_partial resolve _ spaceOK_unicode_minus_ogham e base pf inp ts h
+
+/-- non-vacuity: a TriG-looking Turtle document (subject `graph:x`) accepted by both runs -/
+example :
+    run (C05.realCfg false (fun _ r => some r) (fun c => inRanges Gen.unicodeSpace c && c != 0x1680)) .eof none []
+      (asc "@prefix graph: <a:> . graph:x a graph:y .") =
+      ([⟨some (.iri (asc "a:x")), some (.iri TtlDoc.rdfType), .iri (asc "a:y"), none⟩], .clean) := by
+  decide
 
 /-- statement of the Turtle model for a triple of the N-Triples model (labels as labelled nodes) -/
 def stmtOfNT (q : Quad (List Nat)) : Stmt := ⟨some (ntTerm q.s), some (ntTerm q.p), ntTerm q.o, none⟩
